@@ -1038,7 +1038,30 @@ func checkCLIStop(p *core.Program, r *core.Report, c cliCommand, runCall *ast.Ca
 		}
 		return true
 	})
-	if sigCh == nil {
+	waiterOK := false
+	if sigCh == nil && haveReq {
+		// the wait may live in a helper (awaitShutdown(ctx)): a call, dominating RequestStop, of an in-repo function that
+		// registers a channel for os.Interrupt and blocks on a receive from it on every path
+		ast.Inspect(c.Action.Node, func(n ast.Node) bool {
+			call, ok := n.(*ast.CallExpr)
+			if !ok {
+				return true
+			}
+			fn, _ := typeutil.Callee(info, call).(*types.Func)
+			if fn == nil || fn.Pkg() == nil || !core.InRepo(fn.Pkg().Path()) {
+				return true
+			}
+			if sf := p.SSA.FuncValue(fn); sf != nil && signalWaiter(sf) {
+				if l, ok := g.Locate(call); ok && g.LocDominates(l, reqLoc) {
+					waiterOK = true
+				}
+			}
+			return true
+		})
+	}
+	if waiterOK {
+		// decided by the helper
+	} else if sigCh == nil {
 		problems = append(problems, "no signal.Notify(ch, os.Interrupt): SIGINT would kill the process instead of stopping the servers")
 	} else if haveReq {
 		// a receive from sigCh dominates RequestStop
@@ -1055,4 +1078,98 @@ func checkCLIStop(p *core.Program, r *core.Report, c cliCommand, runCall *ast.Ca
 		}
 	}
 	r.Check(len(problems) == 0, "O14.5", cn, p.Pos(runCall.Pos()), "signal.Notify(os.Interrupt) → receive ≺ RequestStop ≺ AwaitStop ≺ every return after Run", strings.Join(problems, "; "))
+}
+
+// signalWaiter: fn registers a channel it makes with signal.Notify(ch, …, os.Interrupt, …) and every return of fn is
+// dominated by a blocking receive from that channel (a plain receive, or a select without default one of whose cases
+// receives from it).
+func signalWaiter(fn *ssa.Function) bool {
+	if len(fn.Blocks) == 0 {
+		return false
+	}
+	base := func(v ssa.Value) ssa.Value {
+		for {
+			switch x := v.(type) {
+			case *ssa.ChangeType:
+				v = x.X
+				continue
+			case *ssa.MakeInterface:
+				v = x.X
+				continue
+			}
+			return v
+		}
+	}
+	var ch ssa.Value
+	for _, b := range fn.Blocks {
+		for _, in := range b.Instrs {
+			c, ok := in.(*ssa.Call)
+			if !ok || c.Common().StaticCallee() == nil || c.Common().StaticCallee().String() != "os/signal.Notify" || len(c.Common().Args) < 2 {
+				continue
+			}
+			// the variadic tail holds os.Interrupt
+			hasInt := false
+			if sl, ok := c.Common().Args[1].(*ssa.Slice); ok {
+				if al, ok := sl.X.(*ssa.Alloc); ok {
+					for _, ref := range *al.Referrers() {
+						if ia, ok := ref.(*ssa.IndexAddr); ok {
+							for _, rr := range *ia.Referrers() {
+								if st, ok := rr.(*ssa.Store); ok {
+									if ld, ok := base(st.Val).(*ssa.UnOp); ok {
+										if g, ok := ld.X.(*ssa.Global); ok && g.Pkg != nil && g.Pkg.Pkg.Path() == "os" && g.Name() == "Interrupt" {
+											hasInt = true
+										}
+									}
+								}
+							}
+						}
+					}
+				}
+			}
+			if _, isMake := base(c.Common().Args[0]).(*ssa.MakeChan); hasInt && isMake {
+				ch = base(c.Common().Args[0])
+			}
+		}
+	}
+	if ch == nil {
+		return false
+	}
+	var recvBlocks []*ssa.BasicBlock
+	for _, b := range fn.Blocks {
+		for _, in := range b.Instrs {
+			switch x := in.(type) {
+			case *ssa.UnOp:
+				if x.Op == token.ARROW && base(x.X) == ch {
+					recvBlocks = append(recvBlocks, b)
+				}
+			case *ssa.Select:
+				if !x.Blocking {
+					continue
+				}
+				for _, st := range x.States {
+					if st.Dir == types.RecvOnly && base(st.Chan) == ch {
+						recvBlocks = append(recvBlocks, b)
+					}
+				}
+			}
+		}
+	}
+	if len(recvBlocks) == 0 {
+		return false
+	}
+	for _, b := range fn.Blocks {
+		if _, ok := b.Instrs[len(b.Instrs)-1].(*ssa.Return); !ok {
+			continue
+		}
+		dom := false
+		for _, rb := range recvBlocks {
+			if rb == b || rb.Dominates(b) {
+				dom = true
+			}
+		}
+		if !dom {
+			return false
+		}
+	}
+	return true
 }
